@@ -8,12 +8,17 @@ open ScpiVerif.Ctx
 def runParse (cfg : String) (inp : List String) (obs : List String) : Option Verdict := do
   let (mo, cmds) ← modelParse cfg inp
   let mode := inp.headD "P"
+  let obsK := obs
+  let obs := obs.filter (fun t => !t.startsWith "K")      -- K<hex> (P9: what A left unconsumed) is judged on its own below
   let (ra, rb) := splitBar (obs.map (fun t => if t == "||" then "|" else t))
-  let rej := (judgeParse mode cmds inp obs ++ judgeParams cmds ra ++ (if mode == "P" then [] else judgeParams cmds rb)).eraseDups
+  -- P9: what A leaves unconsumed in the input buffer is decided by the (proved) input model; anything else is residue of
+  -- consumed messages that the next message would be glued to
+  let residue := if mode == "P9" ∧ (obsK.find? (·.startsWith "K")) != (mo.find? (·.startsWith "K")) then ["C09.input_residue"] else []
+  let rej := (residue ++ judgeParse mode cmds inp obs ++ judgeParams cmds ra ++ (if mode == "P" then [] else judgeParams cmds rb)).eraseDups
   let tags := [mode] ++ parseTags obs ++ (if mode == "PU" then [if puConclusive inp then "unit_isolation_conclusive" else "unit_isolation_inconclusive"] else [])
   -- static-heap build: whether a text is stored depends on the heap (C20, domain H); the context model keeps every
   -- text, so the drained queue is compared by codes only in that configuration
   let strip := fun (t : String) => if cfg == "B" ∧ t.startsWith "D" then ",".intercalate ((t.splitOn ",").map (fun e => (e.splitOn ":").headD "")) else t
-  pure { modelObs := " ".intercalate (mo.map strip), implObs := some (" ".intercalate (obs.map strip)), rejects := rej, nontrivial := obs.any (fun t => t.startsWith "H" || t.startsWith "E"), tags }
+  pure { modelObs := " ".intercalate (mo.map strip), implObs := some (" ".intercalate (obsK.map strip)), rejects := rej, nontrivial := obs.any (fun t => t.startsWith "H" || t.startsWith "E"), tags }
 
 end ScpiVerif.Drv
